@@ -329,7 +329,9 @@ def real_send(is_requestor, req_max, acc_max, n, file_backed, tmpdir):
         path = os.path.join(tmpdir, "send.bin")
         with open(path, "wb") as f:
             f.write(b"\x00" * 5 + data)
-        rq._dataset_path = (path, 5)
+        from pathlib import Path
+
+        rq._dataset_path = (Path(path), 5)
     else:
         rq.DataSet = BytesIO(data)
     old = evt.trigger
